@@ -742,6 +742,54 @@ def generate(ch, feat=None):
     return Gen(ch, feat or Feat()).generate()
 
 
+def add_agg_only(P, ch):
+    """adds an output relation whose rules consist of ONE aggregate and nothing else (the aggregate is then the outermost operation
+    of the rule): `qa(c, v) :- v = OP y : { E(.., c, .., y, ..), y CMP d }` -- a column bound to a constant that occurs in the data, a
+    residual condition that an index cannot answer, and in half of the rules chosen so that the bound range is non-empty while NO
+    tuple passes the residual condition (min/max/mean over nothing: the rule must not fire). Returns the relation name or None."""
+    cands = []
+    for n in P.order:
+        rel = P.rels[n]
+        idx = [i for i, t in enumerate(rel.types) if t == NUMBER]
+        if rel.kind == "edb" and len(idx) >= 2 and rel.facts:
+            cands.append((rel, idx))
+    if not cands:
+        return None
+    rel, idx = ch.choice(cands)
+    name = "q%d" % (900 + len(P.order))   # (q<digits>: renamed by prefix_program like every generated relation)
+    q = Rel(name, [NUMBER, NUMBER], "idb")
+    q.group = len(P.groups)
+    P.add_rel(q)
+    P.groups.append([name])
+    for k in range(ch.int(1, 3)):
+        i, j = ch.sample(idx, 2)
+        c = ch.choice(sorted({t[i] for t in rel.facts}))
+        ys = sorted({t[j] for t in rel.facts if t[i] == c})
+        y = Var("y%d" % k, NUMBER)
+        args = []
+        for p_, ty in enumerate(rel.types):
+            args.append(Const(c, NUMBER) if p_ == i else y if p_ == j else Var("w%d_%d" % (k, p_), ty))
+        locals_ = [a for a in args if isinstance(a, Var)]
+        kind = ch.weighted([(3, "none_passes"), (2, "some_pass"), (1, "no_filter")])
+        body = [Atom(rel.name, args)]
+        if kind == "none_passes":
+            if len(ys) == 1 and ch.bool(0.5):
+                body.append(Cmp("!=", y, Const(ys[0], NUMBER), NUMBER))
+            elif ys[-1] < I32_MAX - 1 and ch.bool(0.5):
+                body.append(Cmp(">", y, Const(ys[-1], NUMBER), NUMBER))
+            else:
+                body.append(Cmp("<", Fn("+", [y, Const(0, NUMBER)], NUMBER), Const(ys[0], NUMBER), NUMBER))
+        elif kind == "some_pass":
+            body.append(Cmp(ch.choice(["!=", ">=", "<"]), y, Const(ch.choice(ys), NUMBER), NUMBER))
+        op = ch.weighted([(3, "min"), (3, "max"), (1, "sum"), (1, "count")])
+        v = Var("v%d" % k, NUMBER)
+        agg = Agg(op, None if op == "count" else y, body, NUMBER, locals_)
+        r = Rule(Atom(name, [Const(c, NUMBER), v]), [Cmp("=", v, agg, NUMBER)])
+        r.tags.add("agg_only")
+        P.rules.append(r)
+    return name
+
+
 # ------------------------------------------------------------------------------------------------
 # printing
 
